@@ -147,7 +147,7 @@ Qed.
 (** ---------------------------------------------------------------- the whole instantiation loop *)
 (** for every coarse node with a fragment (at any position, arbitrary coarse graph, arbitrary dictionary of well-formed
     templates) there is a map [cf] from template atoms to fine nodes of the disconnected molecule such that the copy of atom t
-    records exactly [coarse key] and [(fragname, t)], and between the copies of a and b there is exactly the edge the
+    records exactly [coarse key] and [(fragname, t)] and otherwise carries the template's attributes, and between the copies of a and b there is exactly the edge the
     template has between a and b, with the template's attribute dict *)
 Theorem disconnected_edges_copy fd meta mol fgs : tmpl_dict fd -> resolve_disconnected fd meta = Ok (mol, fgs) ->
   forall pre mn post fv name frag, meta = pre ++ mn :: post ->
@@ -155,7 +155,9 @@ Theorem disconnected_edges_copy fd meta mol fgs : tmpl_dict fd -> resolve_discon
   exists cf : Z -> Z,
     (forall a b, In a (node_keys frag) -> In b (node_keys frag) -> cf a = cf b -> a = b) /\
     (forall n, In n frag -> node_get mol (cf (nk n)) (S "fragid") = Some (VList [VInt (nk mn)]) /\
-                            node_get mol (cf (nk n)) (S "mapping") = Some (mapping_val name (nk n))) /\
+                            node_get mol (cf (nk n)) (S "mapping") = Some (mapping_val name (nk n)) /\
+                            forall key, key <> S "fragid" -> key <> S "mapping" -> key <> S "ez_isomer_atoms" ->
+                                        node_get mol (cf (nk n)) key = aget key (na n)) /\
     (forall a b, In a (node_keys frag) -> In b (node_keys frag) -> edge_attrs mol (cf a) (cf b) = tmpl_edge frag a b).
 Proof.
   intros Hd H pre mn post fv name frag -> Hf Hl. unfold resolve_disconnected in H. rewrite VirtualProofs.fold_res_app in H.
@@ -170,11 +172,12 @@ Proof.
   split; [|split].
   - intros a b Ha Hb Eq. apply (NameProofs.nodup_map_eq cf (node_keys frag)); auto.
     unfold node_keys. rewrite map_map. unfold cf. rewrite corr_values by exact Hn. apply correspondence_injective.
-  - intros n Hn'. destruct (Hc n Hn') as [a' [_ A]].
+  - intros n Hn'. destruct (Hc n Hn') as [a' [Mn A]].
     assert (In (nk n) (node_keys frag)) as Hk by (unfold node_keys; now apply in_map).
     destruct (disconnected_keeps fd Hd _ _ _ _ _ H (cf (nk n)) (Hin _ Hk)) as (_ & A2 & _).
     unfold node_get. unfold node_attrs in A, A2. destruct (gfind (cf (nk n)) mol) as [r|]; destruct (gfind (cf (nk n)) mb) as [r'|]; try discriminate.
-    inversion A2 as [X]. inversion A as [Y]. rewrite X, Y. split; [apply stamped_fragid|apply stamped_mapping].
+    inversion A2 as [X]. inversion A as [Y]. rewrite X, Y. split; [apply stamped_fragid|]. split; [apply stamped_mapping|].
+    intros key K1 K2 K3. rewrite (stamped_other _ _ _ _ key K1 K2). exact (frag_copy_attrs _ _ _ _ key Mn K1 K3).
   - intros a b Ha Hb. destruct (disconnected_keeps fd Hd _ _ _ _ _ H (cf a) (Hin _ Ha)) as (_ & _ & E2). rewrite E2. now apply He.
 Qed.
 
